@@ -44,7 +44,7 @@ def as_int_arg(v):
         return -999
 
 
-EMPTY_OBS = {'cls': 'ok', 'family': '', 'msg': '', 'subs': [], 'readouts': [], 'visits': [], 'applies': [], 'applied': [], 'hooked': False}
+EMPTY_OBS = {'cls': 'ok', 'family': '', 'msg': '', 'subs': [], 'readouts': [], 'visits': [], 'applies': [], 'applied': [], 'discover': [], 'hooked': False}
 
 
 def observe(fn, seed=0, limit=3):
@@ -52,7 +52,7 @@ def observe(fn, seed=0, limit=3):
     from jaqalpaq import _verif_trace
     _verif_trace.drain()
     numpy.random.seed(seed)
-    obs = dict(EMPTY_OBS, hooked=bool(_verif_trace.ENABLED), subs=[], readouts=[], visits=[], applies=[], applied=[])
+    obs = dict(EMPTY_OBS, hooked=bool(_verif_trace.ENABLED), subs=[], readouts=[], visits=[], applies=[], applied=[], discover=[])
     res, e = impl.with_cpu_limit(fn, seconds=limit)
     events = _verif_trace.drain()
     if e is not None:
@@ -94,6 +94,9 @@ def observe(fn, seed=0, limit=3):
     for ev, f in events:
         if ev == 'visit':
             obs['visits'].append({'sub': int(f['sub']), 'readout': int(f['readout']), 'value': int(f['value'])})
+        elif ev == 'discover':
+            # hook H2: subcircuit discovery meets a gate statement; the walker's state BEFORE it handles the statement
+            obs['discover'].append({'gate': str(f['gate']), 'open': bool(f['open']), 'closed': int(f['closed'])})
         elif ev == 'applied':
             # the state AFTER the gate has been applied (hook H3b), in exact form
             ok, k, vec = exact(f['vec'])
